@@ -1,19 +1,84 @@
-(* C03 - Inbound framing stays synchronised, frame-isolated and crash-free. (theorems being added; see Proofs/ChannelProofs.v) *)
+(* C03 - Inbound framing stays synchronised, frame-isolated and crash-free.
+   Statements only; proofs in Proofs/ChannelRead.v.  read_fcall models ReadFcall (after the repairs
+   of D1 and D2) with the reused read buffer as explicit state. *)
 From Coq Require Import List NArith ZArith Bool.
-From P9 Require Import Base.Res Base.Bytes Model.WireTypes Model.Spec9P Model.Wire Model.Channel.
+From P9 Require Import Base.Res Base.Bytes Model.WireTypes Model.Spec9P Model.Wire Model.Channel
+  Proofs.WireDecode Proofs.ChannelRead.
 Import ListNotations.
 Open Scope N_scope.
 
-(* the D1 witness: a size field of 2 is an error, and the next frame (a Tclunk of fid 7) is still delivered *)
+(* 1. One read consumes exactly one length-prefixed frame and its outcome is [classify msize L body]:
+      an overflow of exactly the excess when L > msize, else the decoded message (a read request with
+      its count lowered), else the decoder's error -- a function of the frame's bytes and msize only. *)
+Theorem C03_one_frame : forall msize buf L body rest,
+  4 <= L -> L < M32 -> len body = L - 4 ->
+  exists buf', read_fcall msize buf (frame_bytes L body ++ rest) = (classify msize L body, buf', rest).
+Proof. exact read_one_frame. Qed.
+Print Assumptions C03_one_frame.
+
+(* 2. A frame with an impossible length (size field 0..3) yields an error and consumes its four bytes. *)
+Theorem C03_bad_size : forall msize buf L rest, L < 4 ->
+  read_fcall msize buf (le 4 L ++ rest) = (RErr E_BADSIZE, buf, rest).
+Proof. exact read_bad_size. Qed.
+Print Assumptions C03_bad_size.
+
+(* 3. Isolation: for EVERY stream (well-framed or not) the outcome and the remaining stream do not
+      depend on what earlier traffic left in the read buffer. *)
+Theorem C03_isolation : forall msize b1 b2 s,
+  fst (fst (read_fcall msize b1 s)) = fst (fst (read_fcall msize b2 s)) /\
+  snd (read_fcall msize b1 s) = snd (read_fcall msize b2 s).
+Proof. exact read_isolated. Qed.
+Print Assumptions C03_isolation.
+
+(* 4. No byte stream, buffer content or msize reaches the Panic outcome. *)
+Theorem C03_no_panic : forall msize buf s, fst (fst (read_fcall msize buf s)) <> RPanic.
+Proof. exact read_no_panic. Qed.
+Print Assumptions C03_no_panic.
+
+(* 5. Resynchronisation: successive reads over any concatenation of frames -- valid, oversize,
+      undecodable in any order -- yield each frame's own outcome, so every later well-formed frame is
+      still delivered. *)
+Theorem C03_resync : forall msize frames buf tail, Forall well_framed frames ->
+  read_many (length frames) msize buf (concat (map (fun fr => frame_bytes (fst fr) (snd fr)) frames) ++ tail)
+  = map (fun fr => classify msize (fst fr) (snd fr)) frames.
+Proof. exact read_frames. Qed.
+Print Assumptions C03_resync.
+
+(* 6. A frame within msize (also of exactly msize) whose body decodes is delivered as a message. *)
+Theorem C03_valid_delivered : forall msize L body f,
+  24 <= msize -> msize < M32 - 12 -> L <= msize -> len body + 4 = L -> allb body ->
+  dec_fcall body = Ok f -> exists f', classify msize L body = RMsg f'.
+Proof. exact read_valid_is_msg. Qed.
+Print Assumptions C03_valid_delivered.
+
+(* 7. A read request's count is lowered on receipt so that its reply fits in msize. *)
+Theorem C03_tread_clamped : forall msize L body f, 24 <= msize -> msize < M32 -> L <= msize ->
+  dec_fcall body = Ok f -> wf_fcall f = true -> fc_type f = T_Tread ->
+  exists fid off c c',
+    fc_fields f = [VF (FInt 4 fid); VF (FInt 8 off); VF (FInt 4 c)] /\
+    classify msize L body = RMsg {| fc_type := T_Tread; fc_tag := fc_tag f;
+                                   fc_fields := [VF (FInt 4 fid); VF (FInt 8 off); VF (FInt 4 c')] |} /\
+    c' <= c /\ 11 + c' <= msize /\ (11 + c <= msize -> c' = c).
+Proof. exact read_tread_clamped. Qed.
+Print Assumptions C03_tread_clamped.
+
+(* witnesses of the repaired defects, and non-vacuity *)
 Example C03_d1_witness :
   read_many 2 64 [] ([2;0;0;0] ++ [11;0;0;0; 120; 5;0; 7;0;0;0]) =
   [RErr E_BADSIZE; RMsg {| fc_type := T_Tclunk; fc_tag := 5; fc_fields := [VF (FInt 4 7)] |}].
 Proof. vm_compute. reflexivity. Qed.
 Print Assumptions C03_d1_witness.
 
-(* the D2 witness: a Tclunk frame lacking its fid is an error although the buffer still holds the previous frame *)
 Example C03_d2_witness :
   read_many 2 64 [] ([11;0;0;0; 120; 5;0; 7;0;0;0] ++ [7;0;0;0; 120; 6;0]) =
   [RMsg {| fc_type := T_Tclunk; fc_tag := 5; fc_fields := [VF (FInt 4 7)] |}; RErr E_EOF].
 Proof. vm_compute. reflexivity. Qed.
 Print Assumptions C03_d2_witness.
+
+Example C03_resync_example :
+  (* oversize frame, then undecodable frame, then a valid Tclunk: the last is still delivered *)
+  well_framed (40, repeat 9 36) /\ well_framed (7, [255; 0; 0]) /\ well_framed (11, [120; 5;0; 7;0;0;0]) /\
+  read_many 3 32 [] (frame_bytes 40 (repeat 9 36) ++ frame_bytes 7 [255;0;0] ++ frame_bytes 11 [120; 5;0; 7;0;0;0]) =
+  [ROverflow 8; RErr E_UNKNOWN; RMsg {| fc_type := T_Tclunk; fc_tag := 5; fc_fields := [VF (FInt 4 7)] |}].
+Proof. repeat split; vm_compute; try reflexivity; intros H; discriminate H. Qed.
+Print Assumptions C03_resync_example.
